@@ -24,12 +24,17 @@ TECHNIQUE = (
     "transport object (write+read, read+write, read+read, read or write + close()/reconnect() from another task): every suspended "
     "operation must end (a watchdog in virtual time names the one that does not), close()/reconnect() must return and the new "
     "connection must work; at client level every cut is run with the retry count given by the constructor and, on a client built with "
-    "the default max_retry=0, by the per-request UDSRequestConfig"
+    "the default max_retry=0, by the per-request UDSRequestConfig; at transport level every cut after the ack is also run as a SECOND USE of "
+    "the same transport object: the caller pauses between write() and read() (so that frames and the end of the stream have all arrived "
+    "before the reply is picked up), then keeps reading until the transport reports the end, or writes again - every one of these "
+    "operations must end in bounded virtual time and the successive reads may only return the peer's complete frames, in order, once"
 )
 LEVEL_TEXT = (
     "Fault enumeration: transport in {tcp-lines, unix-lines, DoIP, HSFZ} x cut at every byte offset (hence every frame boundary and "
     "every position inside handshake, ack and reply frames) x cut kind {EOF, reset, silence} x caller timeout {0.3, 2, none} at "
-    "transport level, and x peer restart delay {0, 0.05, 1.5} x max_retry {1, 2} x retry count configured via {constructor, per-request "
+    "transport level (second use: cut at every offset after the ack of the plain stream and of a stream with a responsePending x pause "
+    "between write() and read() {none, between the data frames, after everything arrived} x follow-up {consumer loop of reads, write + "
+    "reads} x caller timeout {none, 2}), and x peer restart delay {0, 0.05, 1.5} x max_retry {1, 2} x retry count configured via {constructor, per-request "
     "config} at UDS client level, in virtual time; pair level: operation pair {write+read, read+write, read+read, read+close, "
     "read+reconnect, write+close} from two tasks on one transport x every byte offset after the handshake (read+write: cut times "
     "before/between/after ack and reply) x cut kind x caller timeouts {none, 0.3, 2} per operation; plus real "
@@ -40,14 +45,16 @@ LEVEL_TEXT = (
 LEVEL_NOTE = "Trusted: gateway simulator (vf/gateway.py) and its reset model (reader exception + failing writer), virtual clock. Real-socket part uses wall-clock only as the operations' own short timeouts."
 RULE = (
     "cases = (transport, level, cut offset, cut kind, caller timeout, restart delay, max_retry, where the retry count is configured; "
-    "at pair level: operation pair, both caller timeouts, delay of the closing task); offsets enumerated over the whole "
-    "peer->client stream of one exchange; non-trivial = the cut falls before the end of the stream; distinct = distinct case tuples"
+    "at pair level: operation pair, both caller timeouts, delay of the closing task; second use: stream variant, pause before read(), "
+    "follow-up kind); offsets enumerated over the whole "
+    "peer->client stream of one exchange; non-trivial = the cut falls before the end of the stream, or the case continues to use the transport after the loss; distinct = distinct case tuples"
 )
 ASSUMPTIONS = [
     "silence without a caller timeout is only required to end for writes (ack time); reads in that combination are not generated",
     "recovery is required after EOF/reset (and after a missing ack, which closes the connection) when the peer accepts again before the client's reconnect attempt; a silent peer that keeps the connection open gives no reconnect",
     "pair level: a read without caller timeout facing a silent peer is only generated together with a close()/reconnect() from another task and then has to end after that local close; an operation without caller timeout that shares the transport with one that has a timeout may take that timeout + ack time; which of two concurrent reads gets the reply and whether a concurrent reader steals the writer's ack is C06/C07's subject and not judged (only: bounded end, error class, no fabricated or duplicated data)",
     "pair level, virtual time: a local close of the stream feeds EOF to the stream reader one loop iteration later (asyncio's connection_lost); the real-socket sample checks the same combinations against asyncio itself for the line transports",
+    "second use: operations started after the loss are judged like pending ones (bounded end from their own start, error class, no fabricated or repeated data); a complete frame that arrived before the loss may be delivered by a later read or be lost to an error, both are accepted; a read without caller timeout is again only generated for EOF / reset",
     "two concurrent read() calls on a line transport are not generated (asyncio's StreamReader forbids two waiting readers)",
     "virtual-time reset = the reader raises ConnectionResetError and writes fail; TCP half-close subtleties are only covered by the real-socket sample",
 ]
@@ -64,6 +71,9 @@ HS, HD = 0xF4, 0x10
 
 
 VIAS = ["constructor", "request-config"]  # where the client's retry count is configured
+MAX_READS = 4  # second-use cases: a consumer loop reads at most this many times (the peer sends at most two data frames)
+PICKUP_LATE = 0.5  # virtual seconds between write() returning and read() being called: everything the peer sent (incl. the end of stream) is there
+PICKUP_MID = 0.007  # between the responsePending and the final reply
 HORIZON = 20000.0  # virtual seconds; far beyond (max_retry + 1) x (timeout + ack time + pending polls + backoff)
 
 
@@ -94,6 +104,13 @@ def required_reach(tier: str) -> dict[str, int]:
             r[f"pair.closer-while-write-pending:{t}"] = 5
     r.update({"client.retry-via-request-config": 200, "client.retry-via-request-config:eof": 50, "client.retry-via-request-config:reset": 50, "client.retry-via-request-config.cut-after-pending": 20,
               "real.recovered-via-request-config": 4, "real.closer-while-read-pending": 4, "real.pair-reconnect-recovered": 4})
+    for t in TRANSPORTS:
+        # second use of one transport object after an exchange that met the loss
+        r.update({f"again:{t}:drain": 50, f"again:{t}:write": 20, f"again.read-after-loss.no-timeout:{t}": 20, f"again.write-after-loss:{t}": 10,
+                  f"again.read-after-failed-operation:{t}": 10, f"again.write-after-failed-operation:{t}": 5, f"again.late-pickup:{t}": 2, f"again.read-after-late-pickup:{t}": 2})
+        if t != "doip":
+            # (a DoIP connection that saw the end of the stream reports the loss instead of the queued frames: counted, not required)
+            r[f"again.read-after-late-pickup.no-timeout:{t}"] = 5
     r.update({"client.cut-after-pending": 20, "client.second-connection-silent": 10, "client.two-requests.first-failed": 20, "reconnect-api.peer-back-in-time": 40, "reconnect-api.peer-too-late": 20, "cut.mid-header": 10, "cut.mid-payload": 10, "cut.frame-boundary": 6, "close-twice": 100, "real.cases": 10, "real.recovered": 2})
     return r
 
@@ -249,10 +266,25 @@ async def run_transport_level(sc: dict[str, Any]) -> dict[str, Any]:
         if tr is not None:
             w = await op("write", tr.write(REQ, timeout=sc["timeout"]))
             if w["res"][0] == "ok":
-                await op("read", tr.read(timeout=sc["timeout"]))
+                if sc.get("pickup"):
+                    # the caller does something else before it picks up the reply: frames and the end of the stream may all have
+                    # arrived by the time read() is called
+                    await asyncio.sleep(sc["pickup"])
+                r = await op("read", tr.read(timeout=sc["timeout"]))
+                if sc.get("again"):
+                    # second use of the same transport object after the exchange ended (in a reply, an error, a timeout)
+                    go = True
+                    if sc["again"] == "write":
+                        go = (await op("write2", tr.write(REQ, timeout=sc["timeout"])))["res"][0] == "ok"
+                    n = 2
+                    while go and n <= MAX_READS:
+                        # a consumer loop: keep reading until the transport reports the end (error / EOF / timeout)
+                        r = await op(f"read{n}", tr.read(timeout=sc["timeout"]))
+                        go = r["res"][0] == "ok" and bool(r["res"][1])
+                        n += 1
             await op("close", tr.close())
             await op("close2", tr.close())
-        return {"ops": ops, "accepted": len(hub.connections), "attempts": hub.attempts, "cut_time": gws[0].cut_time if gws else None}
+        return {"ops": ops, "accepted": len(hub.connections), "attempts": hub.attempts, "cut_time": gws[0].cut_time if gws else None, "fed_bytes": gws[0].fed_bytes if gws else 0}
 
 
 # ---- two operations suspended on one transport ----------------------------------------------------------
@@ -639,6 +671,90 @@ def check_transport(ctx: Any, sc: dict[str, Any], out: dict[str, Any]) -> None:
                 ctx.violation(f"{t}/read/unbounded/{sc['kind']}", "read() ended later than caller timeout + ack time after the connection was cut", w)
 
 
+def check_followup(ctx: Any, sc: dict[str, Any], out: dict[str, Any]) -> None:
+    """second use of one transport object: write(), [pause], read(), then either a consumer loop (read until the transport reports the
+    end) or another write() (+ reads). Everything after the cut is judged by the statement alone: each operation ends in bounded time
+    with a timeout / connection error / EOF, and the data returned by the successive reads is an in-order selection of the complete
+    data frames the peer sent (nothing twice, nothing the peer did not send)."""
+    t, kind, to, again = sc["transport"], sc["kind"], sc["timeout"], sc["again"]
+    pending = sc.get("pending", False)
+    frames = peer_stream(t, pending)
+    total = sum(len(f) for _, f in frames)
+    k = sc["cut_at"]
+    complete = set()
+    off = 0
+    for lab, f in frames:
+        off += len(f)
+        if min(k, out.get("fed_bytes", k)) >= off:
+            complete.add(lab)
+    expected = [d for lab, d in (("pending", PENDING), ("reply", REPLY)) if lab in complete]
+    lab, where = frame_position(t, min(k, total), pending)
+    ack = ACK_TIME[t]
+    tkey = "timeout" if to is not None else "no-timeout"
+    ct = out.get("cut_time")
+    w = {"scenario": sc, "ops": out["ops"], "cut_in": lab, "where": where, "cut_time": ct}
+    ctx.reach(f"again:{t}:{again}")
+    ctx.reach(f"cut.{where if where != 'boundary' else 'frame-boundary'}")
+    ptr = 0
+    late_data = False  # a read() that was only called after the loss returned data: frames and end of stream had arrived together
+    prev_failed = False
+    for o in out["ops"]:
+        name, res = o["op"], o["res"]
+        dur = o["te"] - o["ts"]
+        base = name.rstrip("0123456789")
+        second = name not in ("connect", "write", "read")
+        after_loss = ct is not None and o["ts"] >= ct
+        if name in ("close", "close2"):
+            ctx.reach("close-twice")
+            if res[0] != "ok":
+                ctx.violation(f"{t}/second-use/close/{'second' if name == 'close2' else 'after-loss'}/{res[1]}", "closing the transport after connection loss and a second use (or twice) raises", w)
+            continue
+        if name == "connect":
+            if res[0] != "ok":
+                ctx.violation(f"{t}/connect/fails-although-handshake-complete/{res[1]}", "connect() failed although the peer completed the handshake", w)
+            continue
+        if second and after_loss:
+            ctx.reach(f"again.{base}-after-loss:{t}")
+            if to is None:
+                ctx.reach(f"again.{base}-after-loss.no-timeout:{t}")
+            if prev_failed:
+                ctx.reach(f"again.{base}-after-failed-operation:{t}")
+            if base == "read" and late_data:
+                ctx.reach(f"again.read-after-late-pickup:{t}")
+                if to is None:
+                    ctx.reach(f"again.read-after-late-pickup.no-timeout:{t}")
+        if res[0] == "exc" and not (res[2] or res[3]):
+            ctx.violation(f"{t}/second-use/{base}/{kind}/{res[1]}", "connection loss surfaces (on the first or a later operation on the transport) as something other than a timeout / connection error / EOF", w)
+        if base == "write":
+            acked = t in ("tcp-lines", "unix-lines") or (name == "write" and "ack" in complete)
+            if res[0] == "ok" and not acked:
+                ctx.violation(f"{t}/second-use/write-completes-without-ack/{kind}", "write() completed although the peer never acknowledged it (the connection was cut before)", w)
+            if res[0] != "ok" and acked and ct is None:
+                ctx.violation(f"{t}/second-use/write/fails-although-acked/{res[1]}", "write() failed although the peer acknowledged the message completely", w)
+        elif res[0] == "ok" and res[1]:
+            if res[1] in expected[ptr:]:
+                ptr += expected[ptr:].index(res[1]) + 1
+                if after_loss:
+                    late_data = True
+                    ctx.reach(f"again.late-pickup:{t}")
+            else:
+                ctx.violation(f"{t}/second-use/fabricated-duplicated-or-truncated-data/{kind}", "successive read() calls returned something other than an in-order selection of the complete data frames the peer sent", w)
+        elif res[0] == "ok":
+            ctx.reach("read.eof-result")
+        prev_failed = res[0] != "ok"
+        # bounded end: caller timeout + ack time; without a caller timeout (only generated for EOF / reset; a write is bounded by the ack
+        # time anyway) the clock starts at the loss
+        if isinstance(to, float):
+            late = dur > to + ack + 0.05 + TOL
+        elif ct is None:
+            ctx.reach("again.cut-not-reached")
+            late = False
+        else:
+            late = o["te"] > max(o["ts"], ct) + ack + 0.05 + TOL
+        if late:
+            ctx.violation(f"{t}/second-use/unbounded/{base}/{kind}/{tkey}", "the operation ended later than caller timeout + ack time after the connection was cut", w)
+
+
 def reconnect_in_time(sc: dict[str, Any], out: dict[str, Any]) -> bool:
     """True if the peer accepts again before the client's (single) reconnect attempt; DoIP keeps trying for 10 s"""
     d = sc["restart_at"]
@@ -722,7 +838,7 @@ def check_client(ctx: Any, sc: dict[str, Any], out: dict[str, Any]) -> None:
 
 def one(ctx: Any, sc: dict[str, Any]) -> None:
     total = sum(len(f) for _, f in peer_stream(sc["transport"], sc.get("pending", False)))
-    ctx.case(repr(sc), nontrivial=(sc["cut_at"] is not None and sc["cut_at"] < total) or sc.get("cut_after") is not None)
+    ctx.case(repr(sc), nontrivial=(sc["cut_at"] is not None and sc["cut_at"] < total) or sc.get("cut_after") is not None or bool(sc.get("again")))
     coro = run_client_level(sc) if sc["level"] == "client" else run_reconnect_api(sc) if sc["level"] == "reconnect-api" else run_pair_level(sc) if sc["level"] == "pair" else run_transport_level(sc)
     try:
         out = vtime.run(coro, horizon=HORIZON, cpu_limit=45.0)
@@ -735,7 +851,7 @@ def one(ctx: Any, sc: dict[str, Any]) -> None:
         return
     except vtime.Deadlock:
         lab, where = frame_position(sc["transport"], sc["cut_at"] or 0, sc.get("pending", False))
-        ctx.violation(f"{sc['transport']}/{sc['level']}{'/' + sc['combo'] if 'combo' in sc else ''}/blocks-forever/{sc['kind']}/{'timeout' if sc['timeout'] is not None else 'no-timeout'}/cut-in-{lab}",
+        ctx.violation(f"{sc['transport']}/{sc['level']}{'/' + sc['combo'] if 'combo' in sc else ''}{'/second-use' if sc.get('again') else ''}/blocks-forever/{sc['kind']}/{'timeout' if sc['timeout'] is not None else 'no-timeout'}/cut-in-{lab}",
                       "the pending operation can never complete after the connection was cut (nothing scheduled, nothing readable)", {"scenario": sc})
         return
     ctx.trace((sc["transport"], sc["level"], sc["kind"], tuple((o["op"], o["res"][0] if o["res"][0] == "ok" else o["res"][1]) for o in out.get("ops", [])), out.get("res", (None, None))[:2]))
@@ -745,6 +861,8 @@ def one(ctx: Any, sc: dict[str, Any]) -> None:
         check_reconnect_api(ctx, sc, out)
     elif sc["level"] == "pair":
         check_pair(ctx, sc, out)
+    elif sc.get("again"):
+        check_followup(ctx, sc, out)
     else:
         check_transport(ctx, sc, out)
 
@@ -982,6 +1100,40 @@ def run_pairs(ctx: Any, params: dict[str, Any]) -> None:
     ctx.sample({"transport": t, "pair-combos": list(PAIR_COMBOS), "offsets": [hs, total]})
 
 
+def run_second_use(ctx: Any, params: dict[str, Any]) -> None:
+    """second use of the same transport object after an exchange that met the loss: the cut at every offset after the ack (plain stream
+    and stream with a responsePending before the reply) x pause between write() and read() (none / between the two data frames / long
+    enough for everything incl. the end of stream to be there before read() is called) x what follows {consumer loop reading until the
+    transport reports the end, another write() + reads}. Without caller timeout at every offset (EOF, reset), with a caller timeout and
+    for a silent peer around the frame boundaries."""
+    t = params["transport"]
+    for pending in (False, True):
+        frames = peer_stream(t, pending)
+        total = sum(len(f) for _, f in frames)
+        start = sum(len(f) for l, f in frames if l in ("rar", "ack"))
+        near = set()
+        off = 0
+        for _, f in frames:
+            near |= {off, off + 1, off + len(f) - 1, off + len(f)}
+            off += len(f)
+        offsets = list(range(start, total + 1, params["step"]))
+        if "half" in params:
+            offsets = [o for i, o in enumerate(offsets) if i % 2 == params["half"] or o == total]
+        base = {"transport": t, "level": "transport", "pending": pending}
+        for k in offsets:
+            for pickup in ((PICKUP_MID, PICKUP_LATE) if pending else (0.0, PICKUP_LATE)):
+                for kind in ("eof", "reset"):
+                    one(ctx, {**base, "cut_at": k, "kind": kind, "timeout": None, "pickup": pickup, "again": "drain"})
+                if k in near:
+                    for kind in ("eof", "reset", "silence"):
+                        for again in ("drain", "write"):
+                            one(ctx, {**base, "cut_at": k, "kind": kind, "timeout": 2.0, "pickup": pickup, "again": again})
+                        if kind != "silence":
+                            one(ctx, {**base, "cut_at": k, "kind": kind, "timeout": None, "pickup": pickup, "again": "write"})
+            if ctx.out_of_time():
+                break
+
+
 def run(ctx: Any, params: dict[str, Any]) -> None:
     import gallia.command  # noqa: F401
 
@@ -1030,6 +1182,8 @@ def run(ctx: Any, params: dict[str, Any]) -> None:
                     one(ctx, {"transport": t, "level": "client", "cut_at": k, "kind": kind, "timeout": rng.choice([0.3, 2.0]), "restart_at": 1e9, "max_retry": rng.choice([1, 2]), "retry_via": rng.choice(VIAS)})
             if ctx.out_of_time():
                 break
+        if not params["client"]:
+            run_second_use(ctx, params)
         if params["client"]:
             # BaseTransport.reconnect(timeout) against a peer that is away for a while
             for T in (1.0, 3.0, 10.0):
